@@ -143,8 +143,9 @@ for line in sys.stdin:
     print(json.dumps(res)); sys.stdout.flush()
 '''
 
-MODELS_1D = ["sphere", "core_shell_sphere", "cylinder", "ellipsoid", "power_law", "sphere@hardsphere", "sphere+cylinder", "fractal"]
-MODELS_2D = ["cylinder", "sphere", "parallelepiped"]
+MODELS_1D = ["sphere", "core_shell_sphere", "cylinder", "ellipsoid", "power_law", "sphere@hardsphere", "sphere+cylinder", "fractal",
+             "sphere@squarewell", "sphere*power_law"]
+MODELS_2D = ["cylinder", "sphere", "parallelepiped", "sphere+cylinder", "cylinder@stickyhardsphere"]
 
 
 class Worker:
@@ -186,6 +187,8 @@ def gen_pars(info, rng, dim):
             pars[p.name] = rng.uniform(0.05, 0.3)
         if p.name.endswith("_mode") or p.name.endswith("structure_factor_mode"):
             pars[p.name] = float(p.default)
+        if p.name == "radius_effective_mode" and "@" in info.id:
+            pars[p.name] = float(rng.choice([0, 1]))      # 0: the user's radius_effective (with its dispersity) goes to S
     if dim == "2d" and rng.random() < 0.5:
         m0 = [p.name for p in info.parameters.call_parameters if p.name.endswith("_M0")]
         if m0:
@@ -219,6 +222,91 @@ def sasview_settings(pars, info=None):
         else:
             out.append((k, v))
     return out
+
+
+def one_field_edit(req, rng, info):
+    """The same request with ONE field changed (same kernel / calculator object): caches keyed on part of the
+    arguments show up as a stale value in the second evaluation."""
+    import copy
+    if req["op"] not in ("call_kernel", "direct"):
+        return None
+    r2 = copy.deepcopy(req)
+    pars = r2["pars"]
+    dim = "2d" if len(req["q"]) == 2 else "1d"
+    pdn = list(info.parameters.pd_2d if dim == "2d" else info.parameters.pd_1d)
+    byname = {p.name: p for p in info.parameters.call_parameters}
+    kinds = ["scale", "background", "value"]
+    if req["op"] == "call_kernel":
+        kinds.append("cutoff")
+    have_pd = [k[:-3] for k in pars if k.endswith("_pd") and pars[k] > 0]
+    if have_pd:
+        kinds += ["pd_width", "pd_n", "pd_type", "pd_off"]
+    if [n for n in pdn if n not in have_pd]:
+        kinds += ["pd_on", "pd_on"]
+    kind = rng.choice(kinds)
+    if kind == "scale":
+        pars["scale"] = pars.get("scale", 1.0) * 1.7
+    elif kind == "background":
+        pars["background"] = pars.get("background", 0.0) + 0.125
+    elif kind == "cutoff":
+        r2["cutoff"] = 1e-3 if req["cutoff"] != 1e-3 else 0.0
+    elif kind == "value":
+        cands = [k for k, v in pars.items() if k in byname and isinstance(v, float) and v != 0 and not k.endswith("_mode")
+                 and byname[k].type in ("volume", "orientation", "sld", "")]
+        if not cands:
+            return None
+        k = rng.choice(cands)
+        pars[k] = pars[k] + 17.0 if byname[k].type == "orientation" else pars[k] * 1.11
+    elif kind == "pd_width":
+        n = rng.choice(have_pd); pars[n + "_pd"] = pars[n + "_pd"] * 1.6
+    elif kind == "pd_n":
+        n = rng.choice(have_pd); pars[n + "_pd_n"] = int(pars.get(n + "_pd_n", 35)) + 5
+    elif kind == "pd_type":
+        n = rng.choice(have_pd); pars[n + "_pd_type"] = "rectangle" if pars.get(n + "_pd_type", "gaussian") != "rectangle" else "gaussian"
+    elif kind == "pd_off":
+        n = rng.choice(have_pd); pars[n + "_pd"] = 0.0
+    elif kind == "pd_on":
+        n = rng.choice([x for x in pdn if x not in have_pd])
+        pars[n + "_pd"] = 12.0 if byname[n].type == "orientation" else 0.15
+        pars[n + "_pd_n"] = rng.choice([4, 9]); pars[n + "_pd_type"] = "gaussian"
+    r2["edit"] = kind
+    return r2
+
+
+def reuse_sequence(model, q, pars, cutoff, rng, info, n_edits=3):
+    """Evaluate a request and a few one-field edits of it, then the request again, all on ONE kernel object; every
+    result must be bit-identical to the same evaluation on a kernel of its own.  Returns (sequence, mismatches)."""
+    import numpy as np
+    from sasmodels.direct_model import call_kernel
+    seq = [dict(op="call_kernel", model=info.id, pars=dict(pars), q=[list(map(float, v)) for v in q], cutoff=cutoff)]
+    for _ in range(n_edits):
+        e = one_field_edit(seq[-1], rng, info)
+        if e is not None:
+            seq.append(e)
+    seq.append(seq[0])
+    bad = []
+    k = model.make_kernel(q)
+    try:
+        for i, r in enumerate(seq):
+            try:
+                got = np.asarray(call_kernel(k, dict(r["pars"]), cutoff=r["cutoff"]), "d")
+            except Exception as exc:  # noqa
+                got = "%s: %s" % (type(exc).__name__, exc)
+            k2 = model.make_kernel(q)
+            try:
+                ref = np.asarray(call_kernel(k2, dict(r["pars"]), cutoff=r["cutoff"]), "d")
+            except Exception as exc:  # noqa
+                ref = "%s: %s" % (type(exc).__name__, exc)
+            finally:
+                k2.release()
+            if isinstance(got, str) or isinstance(ref, str):
+                if isinstance(got, str) != isinstance(ref, str):
+                    bad.append((i, r, got, ref))
+            elif not np.array_equal(got, ref, equal_nan=True):
+                bad.append((i, r, got, ref))
+    finally:
+        k.release()
+    return seq, bad
 
 
 def gen_history(rng, infos, length):
@@ -267,6 +355,12 @@ def gen_history(rng, infos, length):
             reqs.append(dict(op="call_Fq", model=model, q=q, cutoff=cutoff, pars=pars))
         else:
             reqs.append(dict(op="call_kernel", model=model, q=q, cutoff=cutoff, pars=gen_pars(info, rng, dim)))
+        # the request just made, again with one field changed (same kernel or calculator object), once or twice
+        if reqs and reqs[-1]["op"] in ("call_kernel", "direct") and rng.random() < 0.6:
+            for _ in range(rng.choice([1, 2, 3])):
+                e = one_field_edit(reqs[-1], rng, infos[reqs[-1]["model"]])
+                if e is not None:
+                    reqs.append(e)
         # repeat an earlier request now and then: the same request after other work
         if reqs and rng.random() < 0.25:
             evals = [x for x in reqs if x["op"] not in ("release", "reload", "make_kernel")]
